@@ -645,8 +645,7 @@ def r_sentence_loop(repo, rep, R, table_info):
             continue
         counts.append(len(apps))
         ps_call = [e[1] for e in seg if e[0] == 'call' and e[1][1] == N('parse_sentence')]
-        status_fail = any(c[0] == 'cmp' and c[1] in ('>', '!=') and c[3] == C(0) and pol for c, pol, _ in st.conds
-                          if c[0] == 'cmp' and ps_call and c[2] == ps_call[0])
+        status_fail = _search_failed(repo, st, ps_call)
         too_long = _too_long(st)
         for a in apps:
             v = a[2][0]
@@ -711,6 +710,57 @@ def r_sentence_loop(repo, rep, R, table_info):
     return {'paths': len(entered)}
 
 
+def _is_zero(st, call):
+    """has the path established `call == 0` (True) / `call != 0` (False)?  None when it has not tested it"""
+    for c, pol, _ in st.conds:
+        if c == call:
+            return not pol
+        if c == ('unop', 'not', call):
+            return pol
+        if c[0] == 'cmp' and c[2] == call and c[3] == C(0):
+            if c[1] == '==':
+                return pol
+            if c[1] in ('!=', '>'):
+                return not pol
+            if c[1] == '<=':
+                return pol
+        if c[0] == 'cmp' and c[3] == call and c[2] == C(0):
+            if c[1] == '==':
+                return pol
+            if c[1] in ('!=', '<'):
+                return not pol
+    return None
+
+
+def _status_mode(repo):
+    """what parse_sentence hands back: 'status' (0 = parsed, non-zero = no parse) or 'count' (the number of parses, 0 = no
+    parse) -- read off the header (rules_cxx.status_mode)"""
+    mode = getattr(repo, '_status_mode', None)
+    if mode is None:
+        try:
+            from .parse_model import ParseModel
+            from . import rules_cxx
+            mode = rules_cxx.status_mode(ParseModel(repo))
+        except AnalysisError:
+            mode = 'status'
+        try:
+            repo._status_mode = mode
+        except Exception:
+            pass
+    return mode
+
+
+def _search_failed(repo, st, ps_call):
+    """the path treats the search of this sentence as failed: a non-zero status, or -- when the header reports the number
+    of parses -- a count of zero"""
+    if not ps_call:
+        return False
+    z = _is_zero(st, ps_call[0])
+    if z is None:
+        return False
+    return z if _status_mode(repo) == 'count' else not z
+
+
 def _too_long(st):
     """the path has established  len(tokens) > <the max_length option>"""
     for c, pol, _ in st.conds:
@@ -759,8 +809,7 @@ def failure_values(repo):
             continue
         acc = st.ret
         ps_call = [e[1] for e in st.events if e[0] == 'call' and e[1][1] == N('parse_sentence')]
-        status_fail = any(c[0] == 'cmp' and c[1] in ('>', '!=') and c[3] == C(0) and pol and ps_call and c[2] == ps_call[0]
-                          for c, pol, _ in st.conds)
+        status_fail = _search_failed(repo, st, ps_call)
         too_long = _too_long(st)
         if status_fail or too_long:
             out.extend((e[1][2][0], e[-1]) for e in st.events if e[0] == 'call' and is_method_call(e[1], 'append') and e[1][1][1] == acc)
